@@ -205,12 +205,13 @@ ResultOK(x, y, a, ri, rs) ==
 Init == L \in Caps /\ s = <<>> /\ o = <<>> /\ wf = TRUE
 
 \* a call inside the documented domain: content as std::string cut off at L
-Step(a) == /\ Dom(s, o, a)
+\* ("= TRUE": TLC then evaluates Dom as an expression; as an action conjunct its \A over a long text recurses per element)
+Step(a) == /\ Dom(s, o, a) = TRUE
            /\ s' = NewS(s, o, a)
            /\ o' = NewO(s, o, a)
            /\ UNCHANGED L
 \* a call outside the domain: any content of at most L characters (ns, no chosen by the environment)
-WildCall(a, ns, no) == /\ ~Dom(s, o, a)
+WildCall(a, ns, no) == /\ Dom(s, o, a) = FALSE
                    /\ s' = ns /\ o' = no
                    /\ UNCHANGED L
 
